@@ -242,14 +242,43 @@ pub fn observe(out: &mut Out, sp: &mut ServerProc, pk: &[u8], nworkers: usize, r
         if bad > 0 {
             v.push(("C15 health unanswered-after-burst-wakeup".into(), format!("{} of {} health-check connections that arrived together with a burst of 70 requests (process stopped meanwhile) were not answered with HTTP 200 within 4 s: {}", bad, nconn, why)));
         }
-        burst_sock.set_read_timeout(Some(Duration::from_millis(1500))).unwrap();
+        burst_sock.set_read_timeout(Some(Duration::from_millis(400))).unwrap();
         let mut buf = vec![0u8; 4096];
         let mut answered = 0;
+        // silence alone proves nothing on a loaded machine: requests count as unanswered once the
+        // server has settled (all threads blocked, receive queue unchanged) without answering them
+        let (t_burst, mut quiet_streak, mut busy) = (Instant::now(), 0, false);
         while answered < nvalid {
             match burst_sock.recv_from(&mut buf) {
-                Ok(_) => answered += 1,
-                Err(_) => break,
+                Ok(_) => {
+                    answered += 1;
+                    if quiet_streak >= 2 {
+                        burst_sock.set_read_timeout(Some(Duration::from_millis(400))).unwrap();
+                    }
+                    quiet_streak = 0;
+                }
+                Err(_) => {
+                    if quiet_streak >= 2 {
+                        break;
+                    }
+                    if sp.exited().is_some() || sp.quiescent(Duration::from_millis(150)) {
+                        quiet_streak += 1;
+                        if quiet_streak >= 2 {
+                            burst_sock.set_read_timeout(Some(Duration::from_millis(5))).unwrap();
+                        }
+                    } else {
+                        quiet_streak = 0;
+                    }
+                    if t_burst.elapsed() > Duration::from_secs(30) {
+                        busy = true;
+                        break;
+                    }
+                }
             }
+        }
+        if busy {
+            out.inconclusive("frozen burst not fully answered, server never settled (overloaded machine)");
+            answered = nvalid;
         }
         let _ = pending;
         bg_pause.store(false, std::sync::atomic::Ordering::Relaxed);
@@ -258,7 +287,7 @@ pub fn observe(out: &mut Out, sp: &mut ServerProc, pk: &[u8], nworkers: usize, r
         if answered < nvalid && drops_now == drops0 {
             v.push((
                 format!("C15 burst requests-unanswered junk-prefix={}", junk > 0),
-                format!("{} of {} requests queued while the process was stopped{} were not answered within 1.5 s of silence", nvalid - answered, nvalid, if junk > 0 { format!(" behind {} droppable datagrams", junk) } else { String::new() }),
+                format!("{} of {} requests queued while the process was stopped{} were never answered (the server has settled: all threads blocked, receive queue unchanged)", nvalid - answered, nvalid, if junk > 0 { format!(" behind {} droppable datagrams", junk) } else { String::new() }),
             ));
         }
     }
